@@ -9,7 +9,8 @@ wt=/var/tmp/seedwt; simc=/var/tmp/seedsim
 if [ -d $wt ]; then git -C $wt checkout -q -- . && git -C $wt clean -fdq; git -C $wt checkout -q --detach $(git -C /repo rev-parse HEAD); else git -C /repo worktree add -q --detach $wt HEAD || exit 3; fi
 git -C $wt apply "$patch" || { echo "patch does not apply"; exit 3; }
 mkdir -p $simc
-rsync -a --delete --exclude target /verif/sim/ $simc/
+# committed sources only (the working tree may be mid-edit)
+rm -rf /var/tmp/seedsim-src && mkdir -p /var/tmp/seedsim-src && git -C /verif archive HEAD sim | tar -x -C /var/tmp/seedsim-src && rsync -a --delete --exclude target /var/tmp/seedsim-src/sim/ $simc/
 find $simc -name Cargo.toml -exec sed -i "s#/repo/#$wt/#g" {} +
 grep -rl '"/repo/' $simc --include=*.rs | xargs -r sed -i "s#\"/repo/#\"$wt/#g"
 export VERIF_SIM_DIR=$simc VERIF_EVIDENCE_DIR=/dev/shm/seedtest-evidence VERIF_REPLAY_DIR=/dev/shm/seedtest-replays
